@@ -3,6 +3,7 @@ package main
 import (
 	"fmt"
 	"regexp"
+	"strings"
 
 	"golang.org/x/tools/go/ssa"
 )
@@ -102,9 +103,19 @@ func ruleCode93Checksum(c *Ctx) {
 		c.Undecided(R, "code93.getChecksum/loop", ia.Pos(), "loop is not a counting loop over the position")
 		return
 	}
-	c.Check(R, "code93.getChecksum/first", ia.Pos(), pEqual(first, MustRef("len(data) - 1")), "starts at the last rune", first.String())
-	c.Check(R, "code93.getChecksum/step", ia.Pos(), pEqual(step, pConst(-1)), "one rune to the left per iteration", step.String())
-	c.expectCond(R, "code93.getChecksum/while", ia.Pos(), cond, "q >= 0")
+	checkTraversal := func(closedFormWeight bool) {
+		// a weight that is carried from character to character needs the right-to-left walk; a weight
+		// computed from the position alone only needs every position to be visited once
+		if closedFormWeight && pEqual(first, pConst(0)) {
+			c.Check(R, "code93.getChecksum/first", ia.Pos(), true, "every position once (weight by position)", first.String())
+			c.Check(R, "code93.getChecksum/step", ia.Pos(), pEqual(step, pConst(1)), "one rune per iteration", step.String())
+			c.expectCond(R, "code93.getChecksum/while", ia.Pos(), cond, "q < len(data)")
+			return
+		}
+		c.Check(R, "code93.getChecksum/first", ia.Pos(), pEqual(first, MustRef("len(data) - 1")), "starts at the last rune", first.String())
+		c.Check(R, "code93.getChecksum/step", ia.Pos(), pEqual(step, pConst(-1)), "one rune to the left per iteration", step.String())
+		c.expectCond(R, "code93.getChecksum/while", ia.Pos(), cond, "q >= 0")
+	}
 	var elem ssa.Value
 	for _, r := range *ia.Referrers() {
 		if ld, ok := r.(*ssa.UnOp); ok {
@@ -164,16 +175,37 @@ func ruleCode93Checksum(c *Ctx) {
 	if wP != nil {
 		n.Bind[wP] = "w"
 		var upd []valCase
-		for ei, e := range wP.Edges {
+		next := cFalse // the iteration goes on to the next character
+		nBack := 0
+		for ei := range wP.Edges {
 			if hdr.Dominates(hdr.Preds[ei]) {
-				upd = append(upd, n.valueCases(fn, nil, e, 0)...)
+				nBack++
 			}
 		}
-		checkCases(c, R, "code93.getChecksum/weight-update", wP.Pos(), mergeCases(upd), []edgeSpec{{"w + 1", "w + 1 <= maxWeight"}, {"1", "w + 1 > maxWeight"}})
+		for ei, e := range wP.Edges {
+			if hdr.Dominates(hdr.Preds[ei]) {
+				edge := cTrue
+				if nBack > 1 {
+					// several back edges (the wrap-around test closes the loop body): each value belongs to its edge
+					pred := hdr.Preds[ei]
+					edge = cAnd(n.ReachCond(fn, hdr.Succs[0], pred), n.EdgeCond(pred, hdr))
+				}
+				next = cOr(next, edge)
+				for _, cs := range n.valueCases(fn, nil, e, 0) {
+					upd = append(upd, valCase{cs.val, cAnd(edge, cs.cond)})
+				}
+			}
+		}
+		var dom *Cond
+		if nBack > 1 {
+			dom = next
+		}
+		checkCasesUnder(c, R, "code93.getChecksum/weight-update", wP.Pos(), mergeCases(upd), []edgeSpec{{"w + 1", "w + 1 <= maxWeight"}, {"1", "w + 1 > maxWeight"}}, dom)
 	} else {
 		// closed form of the weight in terms of the position
 		wantW = "(len(data) - 1 - q) % maxWeight + 1"
 	}
+	checkTraversal(wP == nil)
 	// the value of the character: encodeTable[r].value
 	var valV ssa.Value
 	eachInstr(fn, func(b *ssa.BasicBlock, ins ssa.Instruction) {
@@ -300,7 +332,65 @@ func ruleCode93Checksum(c *Ctx) {
 		ne.Bind[d1] = "D"
 		got := ne.NormAt(calls[1], c2.Common().Args[0]).String()
 		c.Check(R, "code93.EncodeWithColor/K-over-data-and-C", c2.Pos(), got == "Cat(D,Conv:string(C))", "getChecksum(data + string(C), 15)", got)
+		// and D is the very string that is drawn: the symbol characters are * D C K * (or * D * without
+		// check characters) - check characters computed over anything else protect nothing
+		ne.Bind[c2] = "K"
+		delete(ne.Bind, d1)
+		{
+			// the checked string as a value of the function that also builds the drawn string
+			saved := ne.Ctx
+			ne.Ctx = calls[0].Path
+			dv, _ := ne.throughParams(d1, calls[0].Fn)
+			ne.Ctx = saved
+			ne.Bind[dv] = "D"
+		}
+		var drawn ssa.Value
+		var drawnSite DeepSite
+		c.P.deepEach(enc, 2, func(s DeepSite) {
+			if rg, ok := s.Ins.(*ssa.Range); ok && isStringType(rg.X.Type()) {
+				// the range that feeds the pattern lookup / AddBits
+				drawn, drawnSite = rg.X, s
+			}
+		})
+		if drawn == nil {
+			c.Undecided(R, "code93.EncodeWithColor/drawn-string", enc.Pos(), "no range over the symbol string")
+		} else {
+			seen := map[string]bool{}
+			saved := ne.Ctx
+			ne.Ctx = drawnSite.Path
+			wv, wfn := ne.throughParams(drawn, drawnSite.Fn)
+			for _, cs := range ne.valueCases(wfn, nil, wv, 0) {
+				seen[strings.Join(catParts(cs.val.String()), " ")] = true
+			}
+			ne.Ctx = saved
+			want := map[string]bool{`const:"*" D Conv:string(C) Conv:string(K) const:"*"`: true, `const:"*" D const:"*"`: true}
+			c.Check(R, "code93.EncodeWithColor/drawn-string", drawn.Pos(), fmt.Sprint(seen) == fmt.Sprint(want), "* D C K * with check characters, * D * without (D = the string the check characters are computed over)", fmt.Sprintf("drawn %v", seen))
+		}
 	}
+}
+
+// catParts flattens a nested concatenation normal form Cat(Cat(a,b),c) into its parts.
+func catParts(s string) []string {
+	if !strings.HasPrefix(s, "Cat(") || !strings.HasSuffix(s, ")") {
+		return []string{s}
+	}
+	inner := s[4 : len(s)-1]
+	depth, inStr := 0, false
+	for i := 0; i < len(inner); i++ {
+		ch := inner[i]
+		switch {
+		case ch == '"' && (i == 0 || inner[i-1] != '\\'):
+			inStr = !inStr
+		case inStr:
+		case ch == '(' || ch == '[':
+			depth++
+		case ch == ')' || ch == ']':
+			depth--
+		case ch == ',' && depth == 0:
+			return append(catParts(inner[:i]), catParts(inner[i+1:])...)
+		}
+	}
+	return []string{s}
 }
 
 func rangeSubject(nx *ssa.Next) ssa.Value {
@@ -468,4 +558,27 @@ func ruleAztecModeCount(c *Ctx) {
 func init() {
 	register("C03", ruleAztecModeCount)
 	register("C10", ruleAztecModeCount)
+}
+
+// throughParams: a value that is a parameter of a helper, replaced by what the calling context passes
+// for it (repeatedly); n.Ctx is shortened accordingly. Case analysis then opens the choices made in
+// the caller.
+func (n *Normer) throughParams(v ssa.Value, fn *ssa.Function) (ssa.Value, *ssa.Function) {
+	for d := 0; d < 4; d++ {
+		p, ok := v.(*ssa.Parameter)
+		if !ok {
+			break
+		}
+		arg, ctx, ok := n.paramArg(p)
+		if !ok {
+			break
+		}
+		v, n.Ctx = arg, ctx
+		if ins, isIns := arg.(ssa.Instruction); isIns {
+			fn = ins.Parent()
+		} else if q, isP := arg.(*ssa.Parameter); isP {
+			fn = q.Parent()
+		}
+	}
+	return v, fn
 }
